@@ -15,7 +15,7 @@ import vlib
 KEYS = ["h1", "h2", "h3", "h1.i", "h2.i", "h3.i", "canc.h1", "canc.h2", "canc.h3",
         "reader", "writer", "closer", "peer", "main"]
 PARROTS = ["HelloGolang", "HelloChrome_Auto", "HelloFirefox_Auto"]
-DL_ANSWER, DL_STALL, DL_POST, SLACK = 4000, 250, 10000, 3000     # ms; a race-built handshake takes ~5-20 ms here
+DL_ANSWER, DL_STALL, DL_POST, DL_RENEG, SLACK = 4000, 250, 10000, 1200, 3000     # ms; a race-built handshake takes ~5-20 ms here
 
 
 NEED_ACTIONS = ["FastPath", "Begin", "Lock", "CheckDone", "FnOk", "FnErr", "Finish", "Unlock", "CloseDone", "HsOut", "RecvIntr",
@@ -140,7 +140,10 @@ def module_copy(ctx, module, suffix, repl):
 POST_KEYS = ["writer", "reader", "srvsend", "srvrecv", "main"]
 
 
-def validate(ctx, results, tag, nshards, diag=False, post=False):
+RENEG_KEYS = ["reader", "h", "writer", "peer", "main"]
+
+
+def validate(ctx, results, tag, nshards, diag=False, post=False, reneg=False):
     """-> set of indexes (into results) accepted by UConnConc_Trace (post: UConnConcPost_Trace), list of TLC results"""
     if not results:
         return set(), []
@@ -151,6 +154,11 @@ def validate(ctx, results, tag, nshards, diag=False, post=False):
         if not part:
             return k, None
         fn = "conc_trace_%s_%d.ndjson" % (tag, k)
+        if reneg:
+            rc = lambda c: dict(h=c["h"], writer=c["writer"], rehs=c["rehs"], deadline=c["deadline"], slack=c["slack"])
+            ctx.write_ndjson(fn, [dict(sc=i + 1, cfg=rc(r["cfg"]), ev={k_: r["ev"].get(k_, []) for k_ in RENEG_KEYS}) for i, r in enumerate(part)])
+            mod = module_copy(ctx, "UConnConcReneg_Trace", "%s_%d" % (tag, k), {"conc_reneg_trace.ndjson": fn})
+            return k, ctx.tlc(mod, cfg="UConnConcReneg_Trace", workers=3, timeout=1500)
         if post:
             ctx.write_ndjson(fn, [dict(sc=i + 1, cfg=r["cfg"], ev={k_: r["ev"].get(k_, []) for k_ in POST_KEYS}) for i, r in enumerate(part)])
             mod = module_copy(ctx, "UConnConcPost_Trace", "%s_%d" % (tag, k), {"conc_post_trace.ndjson": fn})
@@ -292,10 +300,21 @@ def run(ctx):
         f_pmc = ex.submit(lambda: ctx.tlc("UConnConcPost_MC", workers=3))
         f_pmut = ex.submit(lambda: ctx.tlc("UConnConcPost_MC", cfg="UConnConcPost_Mut", workers=2, count=False))
         f_pval = ex.submit(validate, ctx, post, "post", 1 if quick else 6, False, True)
+        f_rmc = ex.submit(lambda: ctx.tlc("UConnConcReneg_MC", workers=3))
+        f_rmut = ex.submit(lambda: ctx.tlc("UConnConcReneg_MC", cfg="UConnConcReneg_Mut", workers=2, count=False))
+        f_rsched = ex.submit(lambda: ctx.tlc("UConnConcReneg_MC", cfg="UConnConcReneg_Sched", workers=2, count=False))
         f_mc = [ex.submit(mc_shard, g) for g in groups]
         sched, sim, live = f_sched.result(), f_sim.result(), f_live.result()
         pmc, pmut, (pacc, _) = f_pmc.result(), f_pmut.result(), f_pval.result()
         mc_results = [f.result() for f in f_mc]
+        rmc, rmut, rsched = f_rmc.result(), f_rmut.result(), f_rsched.result()
+    if rmc.violated:
+        raise vlib.Machinery("model-level violation in UConnConcReneg_MC (lock orders as coded): %s" % rmc.violated)
+    if not ({"NoLockCycle", "DEADLOCK"} & set(rmut.violated)):
+        raise vlib.Machinery("vacuity: UConnConcReneg with the hello rebuilt before handshakeMutex is taken shows no lock cycle")
+    reneg_sched = scns_of(rsched)
+    if not any(x.get("win") for x in reneg_sched):
+        raise vlib.Machinery("no renegotiation schedule enters handshakeContext during the rebuild window")
     if pmc.violated:
         raise vlib.Machinery("model-level violation in UConnConcPost_MC (mechanism as coded): %s" % pmc.violated)
     if "SafetyPost" not in pmut.violated:
@@ -345,7 +364,24 @@ def run(ctx):
     rep_scs = [scen("replay", norm_cfg(s["cfg"]), hist=s["hist"]) for s in replay_list]
     n_stress = 5 if quick else 40
     stress_scs = [scen("stress", c, max_us=rnd.choice([0, 50, 300, 1500, 5000])) for c in sets for _ in range(n_stress)]
-    ordered, races = run_harness(ctx, rep_scs + stress_scs, "ordered", par=24)
+    # renegotiation phase: reader || Handshake caller || writer, the peer sends HelloRequest; TLC schedules
+    # through the gates (those that enter handshakeContext while the reader rebuilds the hello first) + stress
+    def reneg_scen(mode, c, hist=None, max_us=0):
+        next_id[0] += 1
+        cfg_ = dict(C([], [], [], reader=True, writer=c["writer"]), h=c["h"], rehs=c["rehs"], gated=True, ordered=True, deadline=DL_RENEG, slack=SLACK)
+        return dict(id=next_id[0], mode=mode, cfg=cfg_, hist=hist or [], seed=rnd.randrange(1 << 30), max_us=max_us, parrot="")
+    rnd.shuffle(reneg_sched)
+    inwin = [x for x in reneg_sched if x.get("win")]
+    other = [x for x in reneg_sched if not x.get("win")]
+    pick = (inwin[:30] + other[:20]) if quick else reneg_sched
+    reneg_scs = [reneg_scen("reneg", x["cfg"], hist=x["hist"]) for x in pick]
+    reneg_scs += [reneg_scen("reneg-stress", dict(h=True, writer=rnd.random() < 0.7, rehs=rnd.random() < 0.5), max_us=rnd.choice([0, 50, 500, 3000]))
+                  for _ in range(8 if quick else 80)]
+    all_ordered, races = run_harness(ctx, rep_scs + stress_scs + reneg_scs, "ordered", par=24)
+    ordered, reneg = all_ordered[:len(rep_scs) + len(stress_scs)], all_ordered[len(rep_scs) + len(stress_scs):]
+    for r in reneg:
+        if "setup_err" in r["meta"]:
+            raise vlib.Machinery("renegotiation scenario %d: TLS 1.2 setup failed: %s" % (r["sc"], r["meta"]["setup_err"]))
     findings_races += [("ordered", x) for x in races]
     faithful = sum(1 for r in ordered if r["mode"] == "replay" and r["meta"].get("diverged_at", -1) < 0)
     n_replay = len(rep_scs)
@@ -353,7 +389,12 @@ def run(ctx):
         raise vlib.Machinery("only %d of %d TLC schedules could be followed through the gates" % (faithful, n_replay))
 
     # ---- 6. trace validation
-    acc, _ = validate(ctx, ordered, "v", 4 if quick else 14)
+    with cf.ThreadPoolExecutor(max_workers=2) as ex:
+        f_rv = ex.submit(validate, ctx, reneg, "rn", 1 if quick else 4, False, False, True)
+        acc, _ = validate(ctx, ordered, "v", 4 if quick else 14)
+        racc, _ = f_rv.result()
+    ctx.traces += len(racc)
+    reneg_rejected = [i for i in range(len(reneg)) if i not in racc]
     ctx.traces += len(acc)
     rejected = [i for i in range(len(ordered)) if i not in acc]
 
@@ -369,7 +410,8 @@ def run(ctx):
         seen_sigs[why0] = seen_sigs.get(why0, 0) + 1
         repro = 0
         as_observed = dict(r["scen"], id=1, mode="replay", hist=observed_schedule(r))
-        attempts = [as_observed] * 3 + [dict(r["scen"], id=1)] * 3
+        # the same gate schedule several times, then the observed order as a schedule; reproduced = recurs at least once
+        attempts = [dict(r["scen"], id=1)] * 5 + [as_observed] * 3
         for k, sc_again in enumerate(attempts):
             again, races2 = run_harness(ctx, [sc_again], "re%d_%d" % (i, k), par=1)
             ok, why = diagnose(ctx, again[0], "re%d_%d" % (i, k))
@@ -378,7 +420,7 @@ def run(ctx):
                 why0 = why
                 break
         if not repro:
-            unrepro.append("rejection of scenario %d (%s, first unexplained event %s) did not reproduce in 6 re-runs (3 along the observed order)" % (r["sc"], r["mode"], why0))
+            unrepro.append("rejection of scenario %d (%s, first unexplained event %s) did not reproduce in 8 re-runs (5 under the same gate schedule, 3 along the observed order)" % (r["sc"], r["mode"], why0))
             continue
         ctx.finding("reject:%s:%s" % (r["cfg"]["peer"], why0),
                     "recorded execution is not a behaviour of UConnConc; first unexplained event: %s (mode %s)" % (why0, r["mode"]),
@@ -407,6 +449,33 @@ def run(ctx):
         ctx.finding("outcome:%s:%s" % (o["cfg"]["peer"], "hang" if o["hung"] else "inconsistent"),
                     "outcome of a hook-free run is not a reachable outcome of UConnConc (%d of 40 re-runs): rets=%s complete=%s closed=%s tmax=%dms hung=%s" % (len(bad), cls, o["complete"], o["closed"], o["tmax"], o["hung"]),
                     {"scenario": r["scen"], "outcome": o})
+
+    # renegotiation runs the model does not explain (a hang is never explained): the same gate schedule again, several
+    # times; reproduced when the rejection recurs at least once
+    done_sig = set()
+    for i in reneg_rejected:
+        r = reneg[i]
+        hung0 = sorted(e["p"] for e in r["ev"].get("main", []) if e["ev"] == "hang")
+        label = ("hang:" + "+".join(hung0)) if hung0 else "reject"     # label only
+        if label in done_sig or len(done_sig) >= 3:
+            continue
+        done_sig.add(label)
+        batch = [dict(r["scen"], id=n + 1) for n in range(5)]
+        again, races2 = run_harness(ctx, batch, "rern%d" % i, par=5)
+        findings_races += [("renegotiation", x) for x in races2]
+        acc2, _ = validate(ctx, again, "rern%d" % i, 1, False, False, True)
+        bad = [again[n] for n in range(len(again)) if n not in acc2]
+        if not bad:
+            unrepro.append("rejection of renegotiation scenario %d (%s) did not recur in 5 re-runs under the same gate schedule" % (r["sc"], label))
+            continue
+        b = bad[0]
+        hung = sorted(e["p"] for e in b["ev"].get("main", []) if e["ev"] == "hang")
+        ctx.finding("reneg:%s" % (("hang:" + "+".join(hung)) if hung else "reject"),
+                    "renegotiation run (reader || Handshake caller || writer, peer sends HelloRequest) is not a behaviour of UConnConcReneg: "
+                    "%s; recurred in %d of 5 re-runs under the same gate schedule (%d of %d runs rejected in the batch)"
+                    % (("calls that never returned (watchdog = I/O deadline %d ms + slack): %s" % (b["cfg"]["deadline"], hung)) if hung else "unexplained event",
+                       len(bad), len(reneg_rejected), len(reneg)),
+                    {"scenario": b["scen"], "events": flat_events(b)})
 
     # post-handshake runs the model does not explain: re-run the scenario and fresh seeds of it, judge again
     if post_rejected:
@@ -460,6 +529,29 @@ def run(ctx):
     if {"ku_requested", "ku_not_requested", "got"} - pseen and not ctx.findings:
         raise vlib.Machinery("vacuity: post-handshake behaviours never observed in an accepted run: %s" % sorted({"ku_requested", "ku_not_requested", "got"} - pseen))
 
+    rgood = [reneg[i] for i in sorted(racc)]
+    rcan = make_reneg_canaries(rgood)
+    if len(rcan) < 3 and not ctx.findings:
+        raise vlib.Machinery("could not build the renegotiation canaries (%d)" % len(rcan))
+    if rcan:
+        rcacc, _ = validate(ctx, [c for (_, c) in rcan], "rcanary", 1, False, False, True)
+        if rcacc:
+            raise vlib.Machinery("renegotiation binding canary accepted: %s" % [rcan[i][0] for i in sorted(rcacc)])
+    rseen = set()
+    for r in rgood:
+        evs = flat_events(r)
+        if any(e["ev"] == "arrive" and e["g"] == "reneg_build" for e in evs):
+            rseen.add("reneg_build")
+            a = next(n for n, e in enumerate(evs) if e["ev"] == "arrive" and e["g"] == "reneg_build")
+            b_ = next((n for n, e in enumerate(evs) if e["ev"] == "pass" and e["g"] == "reneg_build"), len(evs))
+            if any(e["ev"] == "pass" and e["g"] == "entry" and e["p"] in ("h", "writer") for e in evs[a:b_]):
+                rseen.add("entered_during_rebuild")
+        if any(e["ev"] == "ret" and e["p"] == "h" and not e["isnil"] for e in evs):
+            rseen.add("h_err")
+    rwant = {"reneg_build", "entered_during_rebuild", "h_err"}
+    if rwant - rseen and not ctx.findings:
+        raise vlib.Machinery("vacuity: renegotiation behaviours never observed in an accepted run: %s" % sorted(rwant - rseen))
+
     # ---- 9. vacuity of the validation: the interesting behaviours were really observed and accepted
     seen = set()
     for r in good:
@@ -499,13 +591,13 @@ def run(ctx):
         sample.append({"mode": "bare", "cfg": o["cfg"], "rets": {p: (e["err"] or "nil") for p, e in o["ret"].items() if e["err"] != "absent"},
                        "complete": o["complete"], "closed": o["closed"]})
     cov_out = {
-        "evaluations": len(bare) + len(ordered) + len(post),
+        "evaluations": len(bare) + len(ordered) + len(post) + len(reneg),
         "distinct_nontrivial": len(gate_orders) + len(outcomes),
         "rule": "evaluations = executions of a real UConn (race build) whose log was judged by TLC; distinct = distinct observed "
                 "call/gate/close orders among gated runs + distinct (process set, return classes, complete, closed) outcomes among hook-free runs",
         "process_sets": len(sets), "mc_terminal_states": mc_terminal, "schedules_from_mc": len(schedules), "schedules_from_simulation": len(sim_scn),
         "schedules_replayed": n_replay, "replayed_without_divergence": faithful, "stress_runs_ordered": len(stress_scs),
-        "bare_runs": len(bare), "post_handshake_runs": len(post), "post_runs_accepted": len(pacc), "post_key_updates": sum(len(x["scen"]["kus"]) for x in post), "post_model_states": pmc.distinct, "bare_outcomes_explained": explained, "traces_accepted": len(acc), "traces_rejected": len(rejected),
+        "bare_runs": len(bare), "reneg_runs": len(reneg), "reneg_runs_accepted": len(racc), "reneg_schedules_from_mc": len(reneg_sched), "reneg_schedules_entering_rebuild_window": len(inwin), "reneg_model_states": rmc.distinct, "post_handshake_runs": len(post), "post_runs_accepted": len(pacc), "post_key_updates": sum(len(x["scen"]["kus"]) for x in post), "post_model_states": pmc.distinct, "bare_outcomes_explained": explained, "traces_accepted": len(acc), "traces_rejected": len(rejected),
         "canaries_rejected": len(canaries), "race_reports": len(findings_races), "model_actions_on_emitted_paths": len(taken), "behaviours_seen": sorted(seen),
         "liveness_states": live.distinct, "samples": sample, "exhaustive": True,
         "exhaustive_note": "exhaustive over interleavings of the listed bounded process sets at gate granularity (model level); real-code binding is by sampling schedules",
@@ -516,6 +608,48 @@ def run(ctx):
         "the run-wide lock that orders the gated logs adds happens-before edges, so data races are looked for in the hook-free runs",
         "Go race detector: only races on executed interleavings are reported",
     ]
+
+
+def make_reneg_canaries(good):
+    """Corrupt accepted renegotiation runs; each must be rejected by UConnConcReneg_Trace."""
+    import copy
+    out = []
+    for r in good:
+        hev = r["ev"].get("h", [])
+        rev = r["ev"].get("reader", [])
+        # a run in which the peer refuses, the Handshake caller entered after the reader had started to rebuild the
+        # hello and got the renegotiation's error: nil is impossible for it (other flips can be legitimate)
+        arr = [e["seq"] for e in rev if e["ev"] == "arrive" and e["g"] == "reneg_build"]
+        ent = [e["seq"] for e in hev if e["ev"] == "pass" and e["g"] == "entry"]
+        if r["cfg"]["rehs"] or not arr or not ent or ent[0] < arr[0] or not any(e["ev"] == "ret" and not e["isnil"] for e in hev) \
+                or not any(e["ev"] == "pass" and e["g"] == "reneg_build" for e in rev):
+            continue
+        c = copy.deepcopy(r)
+        n = next(i for i, e in enumerate(c["ev"]["h"]) if e["ev"] == "ret")
+        c["ev"]["h"][n]["isnil"] = True; c["ev"]["h"][n]["err"] = ""
+        out.append(("Handshake returned nil during a refused renegotiation", c))
+        c = copy.deepcopy(r)
+        n = next(i for i, e in enumerate(c["ev"]["reader"]) if e["ev"] == "pass" and e["g"] == "reneg_build")
+        del c["ev"]["reader"][n]; renumber(c)
+        out.append(("rebuild gate never left", c))
+        c = copy.deepcopy(r)
+        last = max(e["seq"] for k in c["ev"] for e in c["ev"][k])
+        fin = next(i for i, e in enumerate(c["ev"]["main"]) if e["ev"] == "final")
+        c["ev"]["main"].insert(fin, dict(c["ev"]["main"][fin], ev="hang", p="h"))
+        renumber_by_order(c, last)
+        out.append(("a call never returned", c))
+        c = copy.deepcopy(r)
+        n = next(i for i, e in enumerate(c["ev"]["reader"]) if e["ev"] == "ret")
+        c["ev"]["reader"][n]["t"] = r["cfg"]["deadline"] + r["cfg"]["slack"] + 1
+        out.append(("late return", c))
+        break
+    return out
+
+
+def renumber_by_order(r, last):
+    """main's log got one more line before its last one: give it the next sequence numbers"""
+    m = r["ev"]["main"]
+    m[-2]["seq"], m[-1]["seq"] = last, last + 1
 
 
 def make_post_canaries(good):
